@@ -188,9 +188,10 @@ theorem not_idle_trans {u : Tid} (h : (s.loc u).pc ≠ .idle) (htr : Trans c s t
 theorem done_trans {u : Tid} (h : (s.loc u).pc = .done) (htr : Trans c s t s') : (s'.loc u).pc = .done := by
   cases htr <;> by_cases hu : u = t <;> simp_all
 
-/-- every own step of a reader uses up exactly one unit of `readerFuel`: no loop, no retry -/
+/-- every own step of a reader uses up at least one unit of `readerFuel` (exactly one, except that a failed lookup
+`reader(id=..)` skips to the release): no loop, no retry -/
 theorem reader_step_fuel (hr : c.role t = .reader) (hp : readerPc (s.loc t).pc = true) (htr : Trans c s t s') :
-    readerFuel (s'.loc t).pc + 1 = readerFuel (s.loc t).pc := by
+    readerFuel (s'.loc t).pc + 1 ≤ readerFuel (s.loc t).pc := by
   cases htr <;> simp_all
 
 /-- a reader that has started and is not finished can move unless somebody else holds the lock right now: nothing
@@ -281,6 +282,7 @@ def arrivedPc : Pc → Bool
 @[simp] theorem arrivedPc_eRel : arrivedPc .eRel = true := rfl
 @[simp] theorem arrivedPc_rdAcq : arrivedPc .rdAcq = false := rfl
 @[simp] theorem arrivedPc_rdPick : arrivedPc .rdPick = false := rfl
+@[simp] theorem arrivedPc_rdFail : arrivedPc .rdFail = false := rfl
 @[simp] theorem arrivedPc_rdAdd : arrivedPc .rdAdd = false := rfl
 @[simp] theorem arrivedPc_rdRel : arrivedPc .rdRel = false := rfl
 @[simp] theorem arrivedPc_rdRet : arrivedPc .rdRet = false := rfl
